@@ -7,7 +7,9 @@ MC      MC_Present: Present.tla on itself (lexer total, Lex(Render(toks)) = toks
         all-explicit and all-omitted rewritings denote the same, canonical text of every line reads
         back as that line, $INCLUDE never changes the includer's origin, $GENERATE count, sticky error.
 GEN     Gen_Zone "seq" (every shape sequence of length <= N, sharded), "idx" (seeded random longer
-        sequences), "gen" ($GENERATE matrix: 10 ranges x offset {-1,0,7} x width {0,3} x base {d,o,x,X})
+        sequences), "gen" ($GENERATE matrix: 10 ranges x offset {-1,0,7} x width {0,3} x base {d,o,x,X}), "tree"
+        (include files in directories with decoys of the same base name elsewhere; zone file in 4 locations;
+        parsed through fstest.MapFS and, FS-less, on the real file system under a temporary directory)
         -> harness `zone replay`: each vector rendered in >= 4 spellings (canonical; noisy = tabs, case,
         TTL units, TTL/class order, comments, parentheses with line breaks, blank lines, \\DDD labels;
         all-explicit/absolute; all-omitted/relative -- the last two rewritten BY THE SPEC), parsed by
@@ -76,7 +78,7 @@ def rr(owner, ttl, typ, **rd):
 
 
 def cfg(files=()):
-    return {"defTTL": -1, "origin": {"set": True, "n": [B("example")]}, "incAllowed": True,
+    return {"defTTL": -1, "origin": {"set": True, "n": [B("example")]}, "incAllowed": True, "file": B("db"),
             "files": [{"name": B(n), "lines": ls} for n, ls in files]}
 
 
@@ -142,7 +144,7 @@ def gen_replay(ctx, binp, mode, n, nshards, shards, cases=None, tag="", par=4):
 
 def rejudge(ctx, binp, case):
     """case = {cfg, lines[, text]}: spec recomputes what the lines denote, the harness replays; returns mismatches."""
-    case = {k: v for k, v in case.items() if k in ("cfg", "lines", "text")}
+    case = {k: v for k, v in case.items() if k in ("cfg", "lines", "text", "fstext")}
     r, _ = ctx.tlc_vectors("Gen_Zone", workers=1, xmx="3g", timeout=1200, count=False,
                            consts=dict(CONSTS, Mode='"file"', N=0, Shard=0, NShards=1),
                            files={"cases.ndjson": json.dumps(case) + "\n"})
@@ -199,6 +201,7 @@ def run(ctx):
             G("seq", 3, 512, [sh3[1]]),
             G("idx", 0, 1, [0], cases=idx),                 # seeded random sequences of 4..7 lines
             G("gen", 0, 1, [0]),
+            G("tree", 2, 1, [0]),                           # include trees with directories and decoys, FS and os file system
             G("file", 0, 1, [0], cases=QUIRKS),
         ], maxpar=6)
         vp.parallel([lambda: spell_tv(ctx, spells), lambda: record_tv(ctx, binp, 50, 3, par=3)])
@@ -210,7 +213,7 @@ def run(ctx):
             lambda: ctx.tlc("MC_Zone", consts=dict(MaxLines=2, ShapeSet=ALL_SHAPES, PolSet="{0, 15, 9, 6}"), workers=2, timeout=6000),            # 40 k states
             lambda: ctx.tlc("MC_Zone", consts=dict(MaxLines=6, ShapeSet=ALL_SHAPES, PolSet="{0, 15, 9, 6}"), workers=2, timeout=1800,
                             simulate="num=30", depth=7),        # longer random behaviours
-            G("gen", 0, 1, [0]), G("file", 0, 1, [0], cases=QUIRKS),
+            G("gen", 0, 1, [0]), G("tree", 3, 1, [0]), G("file", 0, 1, [0], cases=QUIRKS),
         ]
         jobs += [G("seq", 2, 4, [k]) for k in range(4)]
         jobs += [G("seq", 3, 32, [k]) for k in rnd.sample(range(32), 8)]      # 1/4 of the 8 x 35^3
@@ -223,7 +226,7 @@ def run(ctx):
         "${offset} making the iterator negative, a template that expands to a directive other than $GENERATE, line break inside parentheses with no blank next to it (never rendered)",
         "include nesting up to 3 has to work; beyond that an error is admitted (the property fixes no depth)",
         "record types A NS CNAME MX TXT only (RDATA codec is C01/C05); TTLs < 2^31 (TLC integers)",
-        "include files live in one directory (path resolution relative to the including file is not part of the statement)",
+        "a relative $INCLUDE name is looked up from the directory of the including file, an absolute one from the root of the include FS; '.', '..' and '//' in names are unconstrained",
     ]
     return ctx.finish(rule="vector = (configuration, abstract line sequence) with every record list it may denote; each replayed in >= 4 spellings "
                       "(evaluations counts vectors, notes.spellings the parses); events: renderings read back by the spec's lexer+entry parser, and "
@@ -233,8 +236,10 @@ def run(ctx):
 
 def given(case):
     c = {"cfg": case["cfg"], "lines": case["lines"]}
-    if case.get("given"):
+    if case.get("given"):            # the failing parse itself: its exact text and include files are replayed
         c["text"] = case["given"]
+        if case.get("givenfs"):
+            c["fstext"] = case["givenfs"]
     return c
 
 
